@@ -81,6 +81,9 @@ def gen_pattern(rnd, entries):
         pat = "./" + pat
     elif k < 0.2:
         pat = "@ROOT@//" + pat
+    elif k < 0.25:
+        # an escaped slash is a slash, at the head of an absolute pattern too
+        pat = "\\@ROOT@" + rnd.choice(["/", "\\/", "//"]) + pat
     return pat
 
 
@@ -126,7 +129,7 @@ class P:
             entries = gen_tree(rnd)
             for _ in range(12):
                 cases.append(mk(entries, gen_pattern_bounded(rnd, entries)))
-            cases.append(mk(entries, rnd.choice(["*", "*/", ".*", "*/*", "nomatch*", "[", "a[", "", "*\\"])))
+            cases.append(mk(entries, rnd.choice(["*", "*/", ".*", "*/*", "nomatch*", "[", "a[", "", "*\\", "\\/", "\\//", "\\/.", "/", "\\@ROOT@", "\\@ROOT@/*", "\\@ROOT@\\/*"])))
 
         def cmp(c, i, m):
             return m == "unmodelled" or i == m
